@@ -24,6 +24,7 @@ type CountingCtx struct {
 	FlipAt int
 	Cause  error
 	open   chan struct{}
+	cancel func() // cancels the real parent with a custom cause (NewCountingCtxWithCause)
 }
 
 var closedCh = func() chan struct{} { c := make(chan struct{}); close(c); return c }()
@@ -32,9 +33,25 @@ func NewCountingCtx(parent context.Context, flipAt int, cause error) *CountingCt
 	return &CountingCtx{Context: parent, FlipAt: flipAt, Cause: cause, open: make(chan struct{})}
 }
 
+// NewCountingCtxWithCause is like NewCountingCtx, but the context is a child of
+// a real context.WithCancelCause parent that is cancelled with a custom cause
+// at the flip: ctx.Err() is context.Canceled, context.Cause(ctx) is the custom
+// cause. The library must report the context's error (Err), not the cause.
+func NewCountingCtxWithCause(parent context.Context, flipAt int) *CountingCtx {
+	p, cancel := context.WithCancelCause(parent)
+	c := &CountingCtx{Context: p, FlipAt: flipAt, Cause: context.Canceled, open: make(chan struct{})}
+	c.cancel = func() { cancel(errCustomCause) }
+	return c
+}
+
+var errCustomCause = errors.New("the caller's own reason for cancelling")
+
 func (c *CountingCtx) Done() <-chan struct{} {
 	c.Polls++
 	if c.FlipAt > 0 && c.Polls >= c.FlipAt {
+		if c.cancel != nil {
+			c.cancel()
+		}
 		return closedCh
 	}
 	return c.open
@@ -94,6 +111,23 @@ func Zone(name string) (*time.Location, error) {
 	return time.LoadLocation(name)
 }
 
+// baseContext carries loc as the time zone, set on top of a parent context
+// that already carries ANOTHER zone: the innermost ContextWithTZ must win
+// (as with every context value), whichever zone the ancestors carry.
+func baseContext(loc *time.Location) context.Context {
+	decoy := time.FixedZone("", 9*3600)
+	if loc == time.UTC {
+		decoy, _ = time.LoadLocation("America/New_York")
+		if decoy == nil {
+			decoy = time.FixedZone("", -4*3600)
+		}
+	}
+	return types.ContextWithTZ(types.ContextWithTZ(context.Background(), decoy), loc)
+}
+
+// BaseContext exposes baseContext to the drivers.
+func BaseContext(loc *time.Location) context.Context { return baseContext(loc) }
+
 // Prepared is a case compiled for execution.
 type Prepared struct {
 	Path *path.Path
@@ -125,7 +159,7 @@ func Prepare(c wire.Case) (*Prepared, error) {
 	if err != nil {
 		return nil, err
 	}
-	p.Base = types.ContextWithTZ(context.Background(), loc)
+	p.Base = baseContext(loc)
 	p.SetSilent(false)
 	return p, nil
 }
@@ -343,7 +377,7 @@ func Assemble(p *path.Path, doc any, vars exec.Vars, useTZ bool, zone string, si
 	if err != nil {
 		return nil, err
 	}
-	pr := &Prepared{Path: p, Doc: doc, Vars: vars, useTZ: useTZ, Base: types.ContextWithTZ(context.Background(), loc)}
+	pr := &Prepared{Path: p, Doc: doc, Vars: vars, useTZ: useTZ, Base: baseContext(loc)}
 	pr.SetSilent(silent)
 	return pr, nil
 }
